@@ -43,20 +43,29 @@ def run_model(ops, workdir, shards=16, per_op_s=0.5):
     shards = max(1, min(shards, (n + 19) // 20))
     # interleave so that expensive ops spread evenly
     parts = [ops[i::shards] for i in range(shards)]
+    # every shard writes to its own file: a pipe would block the shards the parent is not currently reading
     procs = []
     for i, part in enumerate(parts):
         p = os.path.join(workdir, "mops-%d.txt" % i)
         with open(p, "w") as f:
             f.write("\n".join(part) + "\n")
-        procs.append(subprocess.Popen([build.modelrun_path(), p], stdout=subprocess.PIPE, stderr=subprocess.PIPE, text=True))
+        fo = open(os.path.join(workdir, "mout-%d.txt" % i), "w")
+        procs.append((subprocess.Popen([build.modelrun_path(), p], stdout=fo, stderr=subprocess.DEVNULL), fo))
     outs = []
-    timeout = 120 + per_op_s * (n / shards)
-    for pr in procs:
+    import time as _time
+    deadline = _time.time() + 120 + per_op_s * (n / shards)
+    for i, (pr, fo) in enumerate(procs):
+        timed_out = False
         try:
-            o, e = pr.communicate(timeout=timeout)
+            pr.wait(timeout=max(1, deadline - _time.time()))
         except subprocess.TimeoutExpired:
             pr.kill()
-            o, e = pr.communicate()
+            pr.wait()
+            timed_out = True
+        fo.close()
+        with open(os.path.join(workdir, "mout-%d.txt" % i)) as f:
+            o = f.read()
+        if timed_out:
             o += "\nMODELTIMEOUT"
         lines = o.split("\n")
         if lines and lines[-1] == "":
